@@ -78,3 +78,19 @@ Definition boot_row_ok (a : aggr) (rows : list urow) (e : key * (Q * Z * Q)) : b
   && (if Qeq_bool pt 0 then Qeq_bool rm 0 else close9 (rm * pt)%Q (inject_Z (agg_results a rows g))).
 Definition check_boot_core (a : aggr) (rows : list urow) (impl : list (key * (Q * Z * Q))) : bool :=
   list_eqb key_eqb (agg_keys a rows) (map fst impl) && forallb (boot_row_ok a rows) impl.
+
+(* C11: the table after adding one unexpected unit x against the table before *)
+Definition tbl_get (t : list arow) (g : key) : option arow := find (fun r => key_eqb (akey r) g) t.
+Definition shift_ints (d : Z) (l : list (Z * Z)) : list (Z * Z) := map (fun p => (fst p + d, snd p + d)) l.
+Definition check_delta (a : aggr) (x : urow) (nlev : nat) (t0 t1 : list arow) : bool :=
+  forallb (fun r1 =>
+    let g := akey r1 in let d := delta a x g in
+    match tbl_get t0 g with
+    | Some r0 => Z.eqb (ares r1) (ares r0 + d) && Z.eqb (apred r1) (apred r0 + d) && Z.eqb (arepn r1) (arepn r0)
+                 && list_eqb zz_eqb (aints r1) (shift_ints d (aints r0))
+    | None => attributable a x && okey_is (kf a x) g && Z.eqb (ares r1) (ures x) && Z.eqb (apred r1) (ures x) && Z.eqb (arepn r1) 0
+              && list_eqb zz_eqb (aints r1) (repeat (ures x, ures x) nlev)
+    end) t1
+  && forallb (fun r0 => is_some (tbl_get t1 (akey r0))) t0
+  && (if attributable a x && is_some (kf a x) then match kf a x with Some g => is_some (tbl_get t1 g) | None => true end else true)
+  && list_eqb key_eqb (map akey t1) (sort_keys (map akey t1)).
